@@ -221,7 +221,7 @@ package decimal128
 //@ mode bv
 //@ returns (sig, exp)
 //@ ensures !special(d) ==> u128(sig) == coef(d) && exp == bexp(d)
-//@ ensures u128(sig) <= M && 0 <= exp && exp <= 16383
+//@ ensures u128(sig) <= M && 0 <= exp && exp <= 18383
 //@ props C12 C20
 
 //@ func compose
@@ -686,3 +686,183 @@ package decimal128
 //@    && (!special(r) ==> RndOK(DefaultRoundingMode, sign(r), rs(Vo, bexp(r)) - rs(Vd, bexp(r)), coef(r), bexp(r)))
 //@ props C01 C15 C19 C20
 
+
+// ---------------------------------------------------------------------------
+// compare.go (C04). Vd, Vo: exact magnitudes; the signed value of d is
+// ite(sign(d), -Vd, Vd). The comparison functions are loop-free.
+// ---------------------------------------------------------------------------
+
+//@ func Decimal.Cmp
+//@ uses rssteps=1,2,3,4,5,6,7,8,19 rsmono=0,1,8,19,36
+//@ returns (c)
+//@ logical Vd real, Vo real
+//@ requires !special(d) ==> Vd >= 0 && rs(Vd, bexp(d)) == coef(d)
+//@ requires !special(o) ==> Vo >= 0 && rs(Vo, bexp(o)) == coef(o)
+//@ mention rs(Vd, bexp(o)) + rs(Vo, bexp(d))
+//@ ensures isnan(d) || isnan(o) ==> c == 0 - 2
+//@ ensures !isnan(d) && !isnan(o) && isinf(d) ==> c == ite(isinf(o) && sign(o) == sign(d), 0, ite(sign(d), 0 - 1, 1))
+//@ ensures !special(d) && isinf(o) ==> c == ite(sign(o), 1, 0 - 1)
+//@ ensures !special(d) && !special(o) ==> c == ite(ite(sign(d), 0 - Vd, Vd) < ite(sign(o), 0 - Vo, Vo), 0 - 1, ite(ite(sign(d), 0 - Vd, Vd) == ite(sign(o), 0 - Vo, Vo), 0, 1))
+//@ waive overflow at "res * -1": res is -1 or 1
+//@ waive overflow at "res *= -1": res is -1 or 1
+//@ waive overflow at "exp *= -1": exp is in -35..-1 here
+//@ waive overflow at "sres * -1": sres is in -1..1
+//@ cut before "if exp >= 8 {"#1: havoc dSig, oSig, exp, trunc, res:
+//@    sign(d) == neg && sign(o) == neg && !special(d) && !special(o) && u128(dSig) != 0 && 0 <= exp && exp <= 18 &&
+//@    ((res == ite(neg, 0 - 1, 1) && rs(Vd, bexp(d)) == u128(dSig) && u128(oSig) <= rs(Vo, bexp(d) - exp) && rs(Vo, bexp(d) - exp) < u128(oSig) + 1 && (trunc <==> rs(Vo, bexp(d) - exp) > u128(oSig)))
+//@  || (res == ite(neg, 1, 0 - 1) && rs(Vo, bexp(o)) == u128(dSig) && u128(oSig) <= rs(Vd, bexp(o) - exp) && rs(Vd, bexp(o) - exp) < u128(oSig) + 1 && (trunc <==> rs(Vd, bexp(o) - exp) > u128(oSig))))
+//@ cut before "if oSig[1] == 0 {": havoc dSig, oSig, exp, trunc, res:
+//@    sign(d) == neg && sign(o) == neg && !special(d) && !special(o) && u128(dSig) != 0 && 0 <= exp && exp <= 10 &&
+//@    ((res == ite(neg, 0 - 1, 1) && rs(Vd, bexp(d)) == u128(dSig) && u128(oSig) <= rs(Vo, bexp(d) - exp) && rs(Vo, bexp(d) - exp) < u128(oSig) + 1 && (trunc <==> rs(Vo, bexp(d) - exp) > u128(oSig)))
+//@  || (res == ite(neg, 1, 0 - 1) && rs(Vo, bexp(o)) == u128(dSig) && u128(oSig) <= rs(Vd, bexp(o) - exp) && rs(Vd, bexp(o) - exp) < u128(oSig) + 1 && (trunc <==> rs(Vd, bexp(o) - exp) > u128(oSig))))
+//@ cut before "switch exp {"#1: havoc dSig, oSig64, exp, trunc, res:
+//@    sign(d) == neg && sign(o) == neg && !special(d) && !special(o) && dSig[0] != 0 && 0 <= exp && exp <= 7 &&
+//@    ((res == ite(neg, 0 - 1, 1) && rs(Vd, bexp(d)) == dSig[0] && oSig64 <= rs(Vo, bexp(d) - exp) && rs(Vo, bexp(d) - exp) < oSig64 + 1 && (trunc <==> rs(Vo, bexp(d) - exp) > oSig64))
+//@  || (res == ite(neg, 1, 0 - 1) && rs(Vo, bexp(o)) == dSig[0] && oSig64 <= rs(Vd, bexp(o) - exp) && rs(Vd, bexp(o) - exp) < oSig64 + 1 && (trunc <==> rs(Vd, bexp(o) - exp) > oSig64)))
+//@ cut before "if dSig[0] == oSig64 {": havoc dSig, oSig64, exp, trunc, res: split exp in 0..7:
+//@    sign(d) == neg && sign(o) == neg && !special(d) && !special(o) && dSig[0] != 0 &&
+//@    ((res == ite(neg, 0 - 1, 1) && rs(Vd, bexp(d)) == dSig[0] && oSig64 <= rs(Vo, bexp(d)) && rs(Vo, bexp(d)) < oSig64 + 1 && (trunc <==> rs(Vo, bexp(d)) > oSig64))
+//@  || (res == ite(neg, 1, 0 - 1) && rs(Vo, bexp(o)) == dSig[0] && oSig64 <= rs(Vd, bexp(o)) && rs(Vd, bexp(o)) < oSig64 + 1 && (trunc <==> rs(Vd, bexp(o)) > oSig64)))
+//@ cut before "switch exp {"#2: havoc dSig, oSig, exp, trunc, res:
+//@    sign(d) == neg && sign(o) == neg && !special(d) && !special(o) && u128(dSig) != 0 && 0 <= exp && exp <= 7 &&
+//@    ((res == ite(neg, 0 - 1, 1) && rs(Vd, bexp(d)) == u128(dSig) && u128(oSig) <= rs(Vo, bexp(d) - exp) && rs(Vo, bexp(d) - exp) < u128(oSig) + 1 && (trunc <==> rs(Vo, bexp(d) - exp) > u128(oSig)))
+//@  || (res == ite(neg, 1, 0 - 1) && rs(Vo, bexp(o)) == u128(dSig) && u128(oSig) <= rs(Vd, bexp(o) - exp) && rs(Vd, bexp(o) - exp) < u128(oSig) + 1 && (trunc <==> rs(Vd, bexp(o) - exp) > u128(oSig))))
+//@ cut before "sres := dSig.cmp(oSig)": havoc dSig, oSig, exp, trunc, res: split exp in 0..7:
+//@    sign(d) == neg && sign(o) == neg && !special(d) && !special(o) && u128(dSig) != 0 &&
+//@    ((res == ite(neg, 0 - 1, 1) && rs(Vd, bexp(d)) == u128(dSig) && u128(oSig) <= rs(Vo, bexp(d)) && rs(Vo, bexp(d)) < u128(oSig) + 1 && (trunc <==> rs(Vo, bexp(d)) > u128(oSig)))
+//@  || (res == ite(neg, 1, 0 - 1) && rs(Vo, bexp(o)) == u128(dSig) && u128(oSig) <= rs(Vd, bexp(o)) && rs(Vd, bexp(o)) < u128(oSig) + 1 && (trunc <==> rs(Vd, bexp(o)) > u128(oSig))))
+//@ props C04 C19 C20
+
+//@ func Decimal.CmpAbs
+//@ uses rssteps=1,2,3,4,5,6,7,8,19 rsmono=0,1,8,19,36
+//@ returns (c)
+//@ logical Vd real, Vo real
+//@ requires !special(d) ==> Vd >= 0 && rs(Vd, bexp(d)) == coef(d)
+//@ requires !special(o) ==> Vo >= 0 && rs(Vo, bexp(o)) == coef(o)
+//@ mention rs(Vd, bexp(o)) + rs(Vo, bexp(d))
+//@ ensures isnan(d) || isnan(o) ==> c == 0 - 2
+//@ ensures !isnan(d) && !isnan(o) && isinf(d) ==> c == ite(isinf(o), 0, 1)
+//@ ensures !special(d) && isinf(o) ==> c == 0 - 1
+//@ ensures !special(d) && !special(o) ==> c == ite(Vd < Vo, 0 - 1, ite(Vd == Vo, 0, 1))
+//@ waive overflow at "exp *= -1": exp is in -35..-1 here
+//@ cut before "if exp >= 8 {"#1: havoc dSig, oSig, exp, trunc, res:
+//@    !special(d) && !special(o) && u128(dSig) != 0 && 0 <= exp && exp <= 18 &&
+//@    ((res == 1 && rs(Vd, bexp(d)) == u128(dSig) && u128(oSig) <= rs(Vo, bexp(d) - exp) && rs(Vo, bexp(d) - exp) < u128(oSig) + 1 && (trunc <==> rs(Vo, bexp(d) - exp) > u128(oSig)))
+//@  || (res == 0 - 1 && rs(Vo, bexp(o)) == u128(dSig) && u128(oSig) <= rs(Vd, bexp(o) - exp) && rs(Vd, bexp(o) - exp) < u128(oSig) + 1 && (trunc <==> rs(Vd, bexp(o) - exp) > u128(oSig))))
+//@ cut before "if oSig[1] == 0 {": havoc dSig, oSig, exp, trunc, res:
+//@    !special(d) && !special(o) && u128(dSig) != 0 && 0 <= exp && exp <= 10 &&
+//@    ((res == 1 && rs(Vd, bexp(d)) == u128(dSig) && u128(oSig) <= rs(Vo, bexp(d) - exp) && rs(Vo, bexp(d) - exp) < u128(oSig) + 1 && (trunc <==> rs(Vo, bexp(d) - exp) > u128(oSig)))
+//@  || (res == 0 - 1 && rs(Vo, bexp(o)) == u128(dSig) && u128(oSig) <= rs(Vd, bexp(o) - exp) && rs(Vd, bexp(o) - exp) < u128(oSig) + 1 && (trunc <==> rs(Vd, bexp(o) - exp) > u128(oSig))))
+//@ cut before "switch exp {"#1: havoc dSig, oSig64, exp, trunc, res:
+//@    !special(d) && !special(o) && dSig[0] != 0 && 0 <= exp && exp <= 7 &&
+//@    ((res == 1 && rs(Vd, bexp(d)) == dSig[0] && oSig64 <= rs(Vo, bexp(d) - exp) && rs(Vo, bexp(d) - exp) < oSig64 + 1 && (trunc <==> rs(Vo, bexp(d) - exp) > oSig64))
+//@  || (res == 0 - 1 && rs(Vo, bexp(o)) == dSig[0] && oSig64 <= rs(Vd, bexp(o) - exp) && rs(Vd, bexp(o) - exp) < oSig64 + 1 && (trunc <==> rs(Vd, bexp(o) - exp) > oSig64)))
+//@ cut before "if dSig[0] == oSig64 {": havoc dSig, oSig64, exp, trunc, res: split exp in 0..7:
+//@    !special(d) && !special(o) && dSig[0] != 0 &&
+//@    ((res == 1 && rs(Vd, bexp(d)) == dSig[0] && oSig64 <= rs(Vo, bexp(d)) && rs(Vo, bexp(d)) < oSig64 + 1 && (trunc <==> rs(Vo, bexp(d)) > oSig64))
+//@  || (res == 0 - 1 && rs(Vo, bexp(o)) == dSig[0] && oSig64 <= rs(Vd, bexp(o)) && rs(Vd, bexp(o)) < oSig64 + 1 && (trunc <==> rs(Vd, bexp(o)) > oSig64)))
+//@ cut before "switch exp {"#2: havoc dSig, oSig, exp, trunc, res:
+//@    !special(d) && !special(o) && u128(dSig) != 0 && 0 <= exp && exp <= 7 &&
+//@    ((res == 1 && rs(Vd, bexp(d)) == u128(dSig) && u128(oSig) <= rs(Vo, bexp(d) - exp) && rs(Vo, bexp(d) - exp) < u128(oSig) + 1 && (trunc <==> rs(Vo, bexp(d) - exp) > u128(oSig)))
+//@  || (res == 0 - 1 && rs(Vo, bexp(o)) == u128(dSig) && u128(oSig) <= rs(Vd, bexp(o) - exp) && rs(Vd, bexp(o) - exp) < u128(oSig) + 1 && (trunc <==> rs(Vd, bexp(o) - exp) > u128(oSig))))
+//@ cut before "sres := dSig.cmp(oSig)": havoc dSig, oSig, exp, trunc, res: split exp in 0..7:
+//@    !special(d) && !special(o) && u128(dSig) != 0 &&
+//@    ((res == 1 && rs(Vd, bexp(d)) == u128(dSig) && u128(oSig) <= rs(Vo, bexp(d)) && rs(Vo, bexp(d)) < u128(oSig) + 1 && (trunc <==> rs(Vo, bexp(d)) > u128(oSig)))
+//@  || (res == 0 - 1 && rs(Vo, bexp(o)) == u128(dSig) && u128(oSig) <= rs(Vd, bexp(o)) && rs(Vd, bexp(o)) < u128(oSig) + 1 && (trunc <==> rs(Vd, bexp(o)) > u128(oSig))))
+//@ props C04 C19 C20
+
+//@ func Decimal.Equal
+//@ returns (b)
+//@ ensures isnan(d) || isnan(o) ==> !b
+//@ ensures !isnan(d) && !isnan(o) && (isinf(d) || isinf(o)) ==> (b <==> (isinf(d) && isinf(o) && sign(d) == sign(o)))
+//@ ensures !special(d) && !special(o) ==> (b <==> (cmpmag(coef(d), bexp(d), coef(o), bexp(o)) == 0 && (sign(d) == sign(o) || coef(d) == 0)))
+//@ waive overflow at "exp *= -1": exp is in -35..-1 here
+//@ cut before "if exp >= 8 {"#1: havoc dSig, oSig, exp:
+//@    !special(d) && !special(o) && sign(d) == sign(o) && coef(d) != 0 && coef(o) != 0 && 0 <= exp && exp <= 18 && u128(dSig) != 0 && u128(dSig) <= M && u128(oSig) <= M &&
+//@    ((cmpmag(coef(d), bexp(d), coef(o), bexp(o)) == 0) <==> (u128(oSig) == u128(dSig) * p10(exp)))
+//@ cut before "if oSig[1] == 0 {": havoc dSig, oSig, exp:
+//@    !special(d) && !special(o) && sign(d) == sign(o) && coef(d) != 0 && coef(o) != 0 && 0 <= exp && exp <= 10 && u128(dSig) != 0 && u128(dSig) <= M && u128(oSig) <= M &&
+//@    ((cmpmag(coef(d), bexp(d), coef(o), bexp(o)) == 0) <==> (u128(oSig) == u128(dSig) * p10(exp)))
+//@ cut before "switch exp {"#1: havoc dSig, oSig64, exp:
+//@    !special(d) && !special(o) && sign(d) == sign(o) && coef(d) != 0 && coef(o) != 0 && 0 <= exp && exp <= 7 && dSig[0] != 0 && dSig[1] == 0 &&
+//@    ((cmpmag(coef(d), bexp(d), coef(o), bexp(o)) == 0) <==> (oSig64 == dSig[0] * p10(exp)))
+//@ cut before "return dSig[0] == oSig64": havoc dSig, oSig64, exp: split exp in 0..7:
+//@    !special(d) && !special(o) && sign(d) == sign(o) && coef(d) != 0 && coef(o) != 0 && dSig[1] == 0 && ((cmpmag(coef(d), bexp(d), coef(o), bexp(o)) == 0) <==> (oSig64 == dSig[0]))
+//@ cut before "switch exp {"#2: havoc dSig, oSig, exp:
+//@    !special(d) && !special(o) && sign(d) == sign(o) && coef(d) != 0 && coef(o) != 0 && 0 <= exp && exp <= 7 && u128(dSig) != 0 && u128(dSig) <= M && u128(oSig) <= M &&
+//@    ((cmpmag(coef(d), bexp(d), coef(o), bexp(o)) == 0) <==> (u128(oSig) == u128(dSig) * p10(exp)))
+//@ cut before "return dSig == oSig": havoc dSig, oSig, exp: split exp in 0..7:
+//@    !special(d) && !special(o) && sign(d) == sign(o) && coef(d) != 0 && coef(o) != 0 && ((cmpmag(coef(d), bexp(d), coef(o), bexp(o)) == 0) <==> (u128(oSig) == u128(dSig)))
+//@ props C04 C19 C20
+
+//@ func CmpResult.Equal
+//@ ensures result <==> cr == 0
+//@ props C04 C20
+
+//@ func CmpResult.Greater
+//@ ensures result <==> cr == 1
+//@ props C04 C20
+
+//@ func CmpResult.GreaterOrEqual
+//@ ensures result <==> (cr == 1 || cr == 0)
+//@ props C04 C20
+
+//@ func CmpResult.Less
+//@ ensures result <==> cr == 0 - 1
+//@ props C04 C20
+
+//@ func CmpResult.LessOrEqual
+//@ ensures result <==> (cr == 0 - 1 || cr == 0)
+//@ props C04 C20
+
+// Compare: total order with NaN first.
+//@ func Compare
+//@ returns (c)
+//@ logical Vd real, Vo real
+//@ requires !special(d) ==> Vd >= 0 && rs(Vd, bexp(d)) == coef(d)
+//@ requires !special(o) ==> Vo >= 0 && rs(Vo, bexp(o)) == coef(o)
+//@ ensures isnan(d) && isnan(o) ==> c == 0
+//@ ensures isnan(d) && !isnan(o) ==> c == 0 - 1
+//@ ensures !isnan(d) && isnan(o) ==> c == 1
+//@ ensures !isnan(d) && !isnan(o) && isinf(d) ==> c == ite(isinf(o) && sign(o) == sign(d), 0, ite(sign(d), 0 - 1, 1))
+//@ ensures !special(d) && isinf(o) ==> c == ite(sign(o), 1, 0 - 1)
+//@ ensures !special(d) && !special(o) ==> c == ite(ite(sign(d), 0 - Vd, Vd) < ite(sign(o), 0 - Vo, Vo), 0 - 1, ite(ite(sign(d), 0 - Vd, Vd) == ite(sign(o), 0 - Vo, Vo), 0, 1))
+//@ props C04 C19 C20
+
+// Min / Max: NaN propagates (first operand first); two zeros are ordered -0 < +0; otherwise the
+// operand that is smaller / larger in the exact order is returned bit for bit (d on ties).
+//@ func Min
+//@ returns (r)
+//@ logical Vd real, Vo real
+//@ requires !special(d) ==> Vd >= 0 && rs(Vd, bexp(d)) == coef(d)
+//@ requires !special(o) ==> Vo >= 0 && rs(Vo, bexp(o)) == coef(o)
+//@ ensures isnan(d) ==> r == d
+//@ ensures !isnan(d) && isnan(o) ==> r == o
+//@ ensures !special(d) && !special(o) && coef(d) == 0 && coef(o) == 0 ==> !special(r) && coef(r) == 0 && bexp(r) == 0 && sign(r) == (sign(d) || sign(o))
+//@ ensures !special(d) && !special(o) && !(coef(d) == 0 && coef(o) == 0) ==> r == ite(ite(sign(o), 0 - Vo, Vo) < ite(sign(d), 0 - Vd, Vd), o, d)
+//@ ensures !isnan(d) && !isnan(o) && isinf(d) ==> r == ite(sign(d) || (isinf(o) && !sign(o)), d, o)
+//@ ensures !special(d) && isinf(o) ==> r == ite(sign(o), o, d)
+//@ call Decimal.Cmp: Vd = Vo
+//@ call Decimal.Cmp: Vo = Vd
+//@ props C04 C15 C19 C20
+
+//@ func Max
+//@ returns (r)
+//@ logical Vd real, Vo real
+//@ requires !special(d) ==> Vd >= 0 && rs(Vd, bexp(d)) == coef(d)
+//@ requires !special(o) ==> Vo >= 0 && rs(Vo, bexp(o)) == coef(o)
+//@ ensures isnan(d) ==> r == d
+//@ ensures !isnan(d) && isnan(o) ==> r == o
+//@ ensures !special(d) && !special(o) && coef(d) == 0 && coef(o) == 0 ==> !special(r) && coef(r) == 0 && bexp(r) == 0 && sign(r) == (sign(d) && sign(o))
+//@ ensures !special(d) && !special(o) && !(coef(d) == 0 && coef(o) == 0) ==> r == ite(ite(sign(o), 0 - Vo, Vo) > ite(sign(d), 0 - Vd, Vd), o, d)
+//@ ensures !isnan(d) && !isnan(o) && isinf(d) ==> r == ite(!sign(d) || (isinf(o) && sign(o)), d, o)
+//@ ensures !special(d) && isinf(o) ==> r == ite(sign(o), d, o)
+//@ call Decimal.Cmp: Vd = Vo
+//@ call Decimal.Cmp: Vo = Vd
+//@ props C04 C15 C19 C20
+
+//@ func Decimal.Sign
+//@ returns (s)
+//@ panics isnan(d)
+//@ ensures s == ite(!special(d) && coef(d) == 0, 0, ite(sign(d), 0 - 1, 1))
+//@ props C04 C15 C20
